@@ -65,6 +65,7 @@ class ModuleTranslator:
         self.report = {}
         self.in_progress = set()
         self.dispatchers = {}
+        self.relit_names = {}
 
     # -------------------------------------------------------------- imports / globals
     def note_import(self, node):
@@ -117,15 +118,73 @@ class ModuleTranslator:
             self.const_types[name] = t
 
     def regex_const(self, name, value):
-        # TEMPORARY until the regex engine is integrated: only util._digits_re, by pattern text
-        if value.pattern == '^[0-9]+$' and value.flags == re.UNICODE:
-            return 'Py.Re.Regex.digitsDollar'
-        if value.pattern == '^[0-9]+\\Z' and value.flags == re.UNICODE:
-            return 'Py.Re.Regex.digitsZ'
-        raise Unsupported('regex constant ' + name)
+        """module-level compiled pattern -> a Lean constant built from CPython's own parse of the pattern"""
+        import regex_ser
+        key = 're:' + name
+        if key not in self.consts:
+            try:
+                term = regex_ser.regex_to_lean(value.pattern, value.flags)
+            except regex_ser.Unsupported as u:
+                raise Unsupported('regex %s: %s' % (name, u))
+            self.consts[key] = 'def %s : Re.Pattern := %s' % (mangle(name), term)
+        return 'Gen.%s.%s' % (self.ns, mangle(name))
+
+    def regex_literal(self, pattern, flags):
+        import regex_ser
+        key = 'relit:%s:%d' % (pattern, flags)
+        if key not in self.consts:
+            name = '_re_lit_%d' % sum(1 for k in self.consts if k.startswith('relit:'))
+            try:
+                term = regex_ser.regex_to_lean(pattern, flags)
+            except regex_ser.Unsupported as u:
+                raise Unsupported('regex literal: %s' % u)
+            self.consts[key] = 'def %s : Re.Pattern := %s' % (name, term)
+            self.relit_names[key] = name
+        return 'Gen.%s.%s' % (self.ns, self.relit_names[key])
 
     def re_literal_call(self, kind, e, ft):
-        raise Unsupported('re.%s with literal pattern' % kind)
+        """re.match('literal', s[, flags]) / re.search / re.fullmatch / re.sub('literal', 'template', s)"""
+        args = list(e.args)
+        flags = 0
+        for kw in e.keywords:
+            if kw.arg == 'flags':
+                flags = self.const_int_expr(kw.value)
+            else:
+                raise Unsupported('re keyword ' + str(kw.arg))
+        if not args or not isinstance(args[0], ast.Constant) or not isinstance(args[0].value, str):
+            raise Unsupported('re.%s with non-literal pattern' % kind)
+        pat = args[0].value
+        if kind in ('match', 'search', 'fullmatch'):
+            if len(args) == 3:
+                flags = self.const_int_expr(args[2])
+            elif len(args) != 2:
+                raise Unsupported('re.%s arity' % kind)
+            v, t = ft.expr(args[1])
+            if t != 'str':
+                raise Unsupported('re.%s subject type %s' % (kind, t))
+            try:
+                ft.last_pattern = re.compile(pat, flags)
+            except re.error:
+                ft.last_pattern = None
+            return ('(Re.%s %s %s)' % ('match_' if kind == 'match' else kind, self.regex_literal(pat, flags), par(v)), 'opt[match]')
+        if kind == 'sub':
+            if len(args) == 5:
+                flags = self.const_int_expr(args[4])
+            elif len(args) != 3:
+                raise Unsupported('re.sub arity')
+            r, rt = ft.expr(args[1])
+            v, t = ft.expr(args[2])
+            if rt != 'str' or t != 'str':
+                raise Unsupported('re.sub argument types')
+            return ('(← Re.sub %s %s %s)' % (self.regex_literal(pat, flags), par(r), par(v)), 'str')
+        raise Unsupported('re.' + kind)
+
+    def const_int_expr(self, node):
+        """evaluate a constant flags expression such as re.I | re.U"""
+        try:
+            return int(eval(compile(ast.Expression(body=node), '<flags>', 'eval'), {'re': re}))   # noqa: S307
+        except Exception:
+            raise Unsupported('non-constant regex flags')
 
     def owner_of_global(self, name):
         """module that defines the global `name` visible in this module (by identity search)"""
